@@ -36,12 +36,15 @@ POOL = [('', 'a'), ('', 'b'), (TNS, 'a'), (TNS, 'c'), (TNS, 'g'), (TNS, 'h'), (F
         ('', 'zz')]
 GLOBALS = {(TNS, 'g'), (TNS, 'h'), (FOR, 'fa'), (FOR, 'fb')}
 WCS = ['##any', '##other', '##local', '##targetNamespace', FOR, '##local ' + FOR, '##targetNamespace ' + UNK]
+# XSD 1.1 negative constraints: '!ns:<notNamespace list>' and / or '!qn:<notQName list>' joined with '|'
+WCS11 = ['!ns:' + FOR, '!ns:##local ##targetNamespace', '!qn:t:c f:zz', '!ns:' + UNK + '|!qn:f:fa', '!qn:t:g zz']
 VALUES = {'valid': ['5', '05', '+5', '7', ' 5 '], 'invalid': ['x', '', '5.0']}
 PRE = {'': '', TNS: 't:', FOR: 'f:', UNK: 'u:'}
 
 
-def st_model():
+def st_model(ver='10'):
     from hypothesis import strategies as st
+    wcs = WCS + (WCS11 if ver == '11' else [])
 
     def decl(name):
         return st.one_of(st.none(), st.fixed_dictionaries({
@@ -56,7 +59,7 @@ def st_model():
         'gref': st.sampled_from([None, None, 'optional', 'required']),
         'gvc': st.sampled_from([None, None, ['fixed', '5'], ['default', '7']]),
         'fref': st.sampled_from([None, None, 'optional', 'required']),
-        'wc': st.one_of(st.none(), st.tuples(st.sampled_from(WCS), st.sampled_from(['strict', 'lax', 'skip']))),
+        'wc': st.one_of(st.none(), st.tuples(st.sampled_from(wcs), st.sampled_from(['strict', 'lax', 'skip']))),
         'wc_in_group': st.booleans(),
     })
 
@@ -87,7 +90,13 @@ def xsd(m):
         local += '<xs:attribute ref="f:fa" use="%s"/>' % m['fref']
     wc = ''
     if m['wc']:
-        wc = '<xs:anyAttribute namespace="%s" processContents="%s"/>' % m['wc']
+        c = m['wc'][0]
+        if c.startswith('!'):
+            parts = dict(p[1:].split(':', 1) for p in c.split('|'))
+            cons = ''.join(' %s="%s"' % ({'ns': 'notNamespace', 'qn': 'notQName'}[k], v) for k, v in parts.items())
+        else:
+            cons = ' namespace="%s"' % c
+        wc = '<xs:anyAttribute%s processContents="%s"/>' % (cons, m['wc'][1])
     gwc = wc if m['wc_in_group'] else ''
     lwc = '' if m['wc_in_group'] else wc
     return ('<xs:schema xmlns:xs="%s" xmlns:t="%s" xmlns:f="%s" targetNamespace="%s">'
@@ -98,8 +107,20 @@ def xsd(m):
             '</xs:schema>' % (XS, TNS, FOR, TNS, FOR, grp, gwc, local, lwc))
 
 
-def wc_allows(wc, ns):
+def wc_allows(wc, ns, local=None):
     c = wc[0]
+    if c.startswith('!'):
+        parts = dict(p[1:].split(':', 1) for p in c.split('|'))
+        if 'ns' in parts:
+            S = {{'##local': '', '##targetNamespace': TNS}.get(t, t) for t in parts['ns'].split()}
+            if ns in S:
+                return False
+        for q in parts.get('qn', '').split():
+            pfx, _, loc = q.rpartition(':')
+            qns = {'t': TNS, 'f': FOR, 'u': UNK, '': ''}[pfx]
+            if (qns, loc) == (ns, local):
+                return False
+        return True
     if c == '##any':
         return True
     if c == '##other':
@@ -140,7 +161,7 @@ def oracle(m, attrs):
                 return False
             if d['vc'] and d['vc'][0] == 'fixed' and int(v) != int(d['vc'][1]):
                 return False
-        elif m['wc'] and wc_allows(m['wc'], k[0]):
+        elif m['wc'] and wc_allows(m['wc'], k[0], k[1]):
             pc = m['wc'][1]
             if pc == 'skip':
                 continue
@@ -160,7 +181,7 @@ def classes_of(m, attrs):
     for d in m['decls']:
         if d['use'] == 'prohibited':
             k = (TNS if d['form'] == 'qualified' else '', d['name'])
-            if k in attrs and m['wc'] and wc_allows(m['wc'], k[0]):
+            if k in attrs and m['wc'] and wc_allows(m['wc'], k[0], k[1]):
                 cl.append('prohibited-and-wildcard')
     return cl
 
@@ -335,7 +356,7 @@ def run_shard(desc):
             m = clean(m)
             st_.sample({'ver': ver, 'attributes': xsd(m).split('<xs:attributeGroup name="G">')[1][:400]}, cap=3)
             return judge_schema(ver, m, subs, tmp, st_, random.Random(core.h64(str(m))))
-        core.hyp_drive(st, PROPERTY, st_model(), body, n, core.derive_seed(seed, 'C03', ver, k))
+        core.hyp_drive(st, PROPERTY, st_model(ver), body, n, core.derive_seed(seed, 'C03', ver, k))
     finally:
         shutil.rmtree(tmp, ignore_errors=True)
     return st
